@@ -1137,8 +1137,16 @@ def run_test(ctx: FunctionContext) -> TestResult:
                 query=ex.path.to_smt2(args),
                 solving_ctx=ctx.solving_ctx,
             )
-            solver_output = solve_low_level(path_ctx)
-            if solver_output.result != unsat:
+            try:
+                infeasible = solve_low_level(path_ctx).result == unsat
+            except Exception as e:
+                # the executor may have been shut down by an early exit in the meantime:
+                # the path is not proved infeasible then
+                if not is_benign_solving_error(e):
+                    raise
+                infeasible = False
+
+            if not infeasible:
                 stuck.append((path_id, ex, ex.context.get_stuck_reason()))
                 if args.print_blocked_states:
                     ctx.traces[path_id] = (
